@@ -28,6 +28,8 @@ inductive PyErr where
   | other (s : String)
 deriving Repr, DecidableEq, Inhabited
 
+deriving instance DecidableEq for Except
+
 def PyErr.kind : PyErr → String
   | .value _ => "ValueError" | .overflow => "OverflowError" | .index => "IndexError"
   | .key => "KeyError" | .type => "TypeError" | .attr => "AttributeError"
